@@ -1,10 +1,11 @@
 use crate::core::Property;
 
 pub mod c01;
+pub mod c09;
 pub mod c18;
 
 pub fn all() -> Vec<&'static dyn Property> {
-    vec![&c01::C01, &c18::C18]
+    vec![&c01::C01, &c09::C09, &c18::C18]
 }
 
 pub fn lookup(id: &str) -> Option<&'static dyn Property> {
